@@ -2,7 +2,7 @@ SPECIFICATION Spec
 CONSTANTS
   VCodec = "hevc"
   ACodec = "opus"
-  MaxPub = 9
+  MaxPub = 10
   MaxVer = 3
   VKinds <- HevcAll
   DtPool <- Dt5
